@@ -22,6 +22,7 @@ type c16Case struct {
 	Pad   int    `json:"pad,omitempty"`   // scan: extra characters in the definition (shifts the ORIGIN block in the stream)
 	Mix   int    `json:"mix,omitempty"`   // scan: line i of the ORIGIN block ends in CRLF iff bit (i mod 7) of Mix is set (a block with mixed line ends)
 	Trail int    `json:"trail,omitempty"` // scan: this many blanks behind the residues of ORIGIN lines (which lines: Mix, 0 = all)
+	From  int    `json:"from,omitempty"`  // scan: Trail / Mix apply to the lines from this index on only (a long canonical block with an irregular end)
 	Deliv int    `json:"deliv,omitempty"` // scan, stream: how the reader hands the bytes over (deliveryNames)
 	Lens  []int  `json:"lens,omitempty"`  // stream: residue counts of the records of one stream (record k uses Alpha rotated by k)
 }
@@ -168,7 +169,7 @@ func c16Check(c c16Case) *Violation {
 			// and read like the canonical block
 			var padded strings.Builder
 			for i, line := range strings.SplitAfter(want, "\n") {
-				if line != "" && (c.Mix == 0 || c.Mix>>(uint(i)%7)&1 == 1) {
+				if line != "" && i >= c.From && (c.Mix == 0 || c.Mix>>(uint(i)%7)&1 == 1) {
 					line = strings.TrimSuffix(line, "\n") + strings.Repeat(" ", c.Trail) + "\n"
 				}
 				padded.WriteString(line)
@@ -185,7 +186,7 @@ func c16Check(c c16Case) *Violation {
 			// the slow path reads line by line: which lines end in CRLF is a matter of each line
 			var mixed strings.Builder
 			for i, line := range strings.SplitAfter(want, "\n") {
-				if line != "" && c.Mix>>(uint(i)%7)&1 == 1 {
+				if line != "" && i >= c.From && c.Mix>>(uint(i)%7)&1 == 1 {
 					line = strings.TrimSuffix(line, "\n") + "\r\n"
 				}
 				mixed.WriteString(line)
@@ -463,6 +464,24 @@ func TestC16(t *testing.T) {
 		}
 	}
 	etr.done(true)
+	// late irregular lines: long canonical blocks (64 KiB .. 1 MiB of lines) whose first padded or CRLF line comes
+	// only near the end - where a reader that has begun on its fast path has to hand over to the slow one
+	elt := enumPart(t, c16Prop, st, "late-irregular-lines")
+	for _, lines := range []int{700, 862, 863, 900, 1200, 4100, pick(8200, 17000)} {
+		n := 60*(lines-1) + 41
+		for _, back := range []int{1, 2, 100, 300} {
+			if back >= lines {
+				continue
+			}
+			for _, v := range []c16Case{{Trail: 1}, {Trail: 7}, {Mix: 127}, {Mix: 1 << (uint(lines-1) % 7)}} {
+				v.Mode, v.Len, v.Alpha, v.From = "scan", n, "acgt", lines-back
+				if !elt.try(v) {
+					return
+				}
+			}
+		}
+	}
+	elt.done(false)
 	// deliveries: the same records through readers that hand the bytes over in other portions (one byte at a time, 7,
 	// 4095, 4096+1, half of what is asked for, ragged, last bytes together with io.EOF)
 	e7 := enumPart(t, c16Prop, st, "deliveries")
